@@ -24,6 +24,7 @@ def tables : Tables where
   helpLineAction := Generated.C07.helpLineAction
   handlerErrorClass := Generated.C07.handlerErrorClass
   errorClasses := Generated.C07.errorClasses
+  asyncActions := Generated.C07.asyncActions
 
 /-- what the theorems need of the constant tables -/
 structure TableFacts (T : Tables) : Prop where
@@ -44,6 +45,12 @@ theorem request2reply_injective :
 theorem reply_actions_distinct :
     ∀ p ∈ (tables.identRequest, tables.identReply) :: tables.request2reply,
       (tables.errorPrefix.isPrefixOf p.2) = false ∧ isReplyAction tables p.2 = true := by decide
+
+/-- the generated list of non-reply actions is what the model and the dispatcher use: the event
+reply, the error event (`error_` + event reply), the log event and the help text line action -/
+theorem async_actions_generated :
+    tables.asyncActions = [tables.eventReply, tables.errorPrefix ++ tables.eventReply, tables.logEvent,
+      tables.helpLineAction] := by decide
 
 /-- the identification request is not in the table (it is treated separately), and the
 eleven `handle_*` names of the dispatcher are the nine table actions, `_ident` and `request` -/
